@@ -173,6 +173,11 @@ def run_items(R, items):
         if c is not None and "alpha" in c:
             nd = need[idx.index(i)]
             lines.append(S.smcert_line(nd["P1"], nd["P2"], nd["V1"], nd["V2"], nd["mu"], c)); where.append((i, "cert"))
+        n_ = len(it["P1"])
+        l1, l2 = thresholds(n_, it["lam1"]), thresholds(n_, it["lam2"])
+        lines.append(" ".join(["dtsf", str(n_)] + [str(v) for M_ in (it["P1"], it["P2"], it["V1"], it["V2"]) for row in M_ for v in row] +
+                              [str(len(l1))] + [fr(x) for x in l1] + [str(len(l2))] + [fr(x) for x in l2]))
+        where.append((i, "dtsf"))
         for l in sim2_lines(it["P1"], it["V1"], it["lam1"]):
             lines.append(l); where.append((i, "s1"))
         for l in sim2_lines(it["P2"], it["V2"], it["lam2"]):
@@ -184,6 +189,19 @@ def run_items(R, items):
     for i, (it, r) in enumerate(zip(items, results)):
         p = per.get(i, {})
         judge(R, it, r, certs.get(i), (p.get("cert") or [None])[0], (p.get("s1", []), p.get("s2", [])))
+        if "pairs" in r and p.get("dtsf") and not (near_threshold(it["P1"], it["V1"], it["lam1"]) or near_threshold(it["P2"], it["V2"], it["lam2"])):
+            fixer = 0 if it["zero"] else 1
+            try:
+                mine = sorted((a - fixer, b - fixer) for a, b in r["pairs"])
+                exp = " ".join(["ok", str(len(mine))] + ["%d %d" % e for e in mine])
+            except Exception:
+                exp = "uninterpretable"
+            if p["dtsf"][0] != exp:
+                R.corr_break("DoubleLambdaTSF.scf answer = end-to-end Lean model (two-sided fill + Irving mirror)", ENTRY,
+                             {"P1": it["P1"], "P2": it["P2"], "V1": it["V1"], "V2": it["V2"], "lambda_1": it["lam1"], "lambda_2": it["lam2"]},
+                             r["pairs"], p["dtsf"][0], {"zero_indexed": it["zero"]})
+            else:
+                R.count("end_to_end_model_answer_equal")
 
 
 def run(R):
